@@ -58,6 +58,20 @@ def tables(rep):
         except BaseException as e:
             to = f"raised {type(e).__name__}"
         dispatch.append({"name": d.name, "to": to})
+        # the same (vendor, code) arriving with zero data octets: dispatched to the class (where the empty value
+        # is in the type's domain) or rejected -- never handed back as some other / generic AVP
+        e = ref.get(d.name)
+        if e:
+            hdr = e["code"].to_bytes(4, "big") + bytes([e["flags"]]) + (12 if e["vendor"] is not None else 8).to_bytes(3, "big") + \
+                (e["vendor"].to_bytes(4, "big") if e["vendor"] is not None else b"")
+            empty_ok = d.type in ("OctetStringType", "UTF8StringType", "DiameterIdentityType") and not hasattr(d.cls, "encode") \
+                or (d.type == "GroupedType" and not e.get("mandatory"))
+            try:
+                back = DiameterAVP.load(hdr)
+                to = type(back[0]).__name__ if len(back) == 1 else f"{len(back)} AVPs"
+            except BaseException as ex:
+                to = d.name if not empty_ok else f"raised {type(ex).__name__}"
+            dispatch.append({"name": d.name, "to": to, "empty": True})
     refrows = [{"name": n, "code": e["code"], "vendor": e["vendor"] if e["vendor"] is not None else -1,
                 "type": e["type"], "flags": e["flags"], "src": "ref"} for n, e in ref.items()]
     docs = []
@@ -100,7 +114,10 @@ def check_tables(rep):
     byref = {r["name"]: r for r in ref}
     bydocs = {r["name"]: r for r in docs}
     byiana = {r["name"]: r for r in iana}
-    bydisp = {r["name"]: r for r in dispatch}
+    bydisp = {}
+    for r in dispatch:
+        if r["name"] != r["to"] or r["name"] not in bydisp:
+            bydisp[r["name"]] = r
     for pair in o["collisions"]:
         a, b = pair
         if a < b:
@@ -119,7 +136,8 @@ def check_tables(rep):
     for n in o["iana"]:
         rep.violation(f"{n}: bromelia/definitions.py lists code {byiana[n]['code']}, the class has {bytree[n]['code']}", {"kind": "table", "cls": n, "table": "iana"})
     for n in o["dispatch"]:
-        rep.violation(f"{n}: decoding a dumped instance dispatches to {bydisp[n]['to']}", {"kind": "table", "cls": n})
+        rep.violation(f"{n}: decoding {'its (vendor, code) with zero data octets' if bydisp[n].get('empty') else 'a dumped instance'} "
+                      f"gives {bydisp[n]['to']}", {"kind": "table", "cls": n})
     rep.case(("tables",), n=len(tree))
     rep.sample({"tree_row": tree[0], "docs_row": docs[0]})
 
